@@ -246,6 +246,17 @@ def handle (st : DState) (op : String) (args : List SX) : DState × SX :=
   match op, args with
   | "echo", [x] => (st, x)
   | "cls", [rows] => ({ st with cls := mkCls rows.getList, cache := none }, .tag "ok")
+  | "clsok", [rows] =>
+    -- the five clauses of `ClsOK` on the character classes in use: the keyword clause by computation, the clause on
+    -- every word character over the rows of the table (a character outside the table is a caseless word character that
+    -- is no parenthesis, for which the clause holds), the three clauses on single characters directly
+    let cps := rows.getList.map (fun r => match r.getList with | cp :: _ => cp.getNum | _ => 0)
+    (st, .list [
+      SX.ofBool (KEYWORDS.all (fun k => wordsOf c k.spelling == [k.spelling])),
+      SX.ofBool (cps.all (fun x => kindOf c x != .word || (!(c.lower x).contains LPAR && !(c.lower x).contains RPAR))),
+      SX.ofBool (!c.isSpace LPAR && !c.isSpace RPAR),
+      SX.ofBool (c.isSpace SPACE),
+      SX.ofBool ([65, 78, 68, 79, 82, 87, 73, 84, 72].all (fun x => kindOf c x == .word && c.lower x == [x + 32]))])
   | "lex", [text] =>
     (st, .list ((pieces c text.getStr).map (fun p => SX.list [.num p.start, .tag (match p.kind with | .word => "word" | .blank => "blank" | .lpar => "lpar" | .rpar => "rpar"), .str p.text])))
   | "words", [text] => (st, encStrs (wordsOf c text.getStr))
